@@ -24,14 +24,15 @@ VARIABLES nst,      \* node -> [up, len, idx, pend, pidx, restored, restarted, u
           hmaps,    \* hyper map as of each version (index v+1)
           dumps,    \* applied raft index -> digest of the whole store (first node seen)
           nacked,   \* number of versions acknowledged to the (sequential) client
-          lost      \* digests of adds whose acknowledgement failed (may or may not be committed)
+          lost,     \* digests of adds whose acknowledgement failed (may or may not be committed)
+          blist     \* backups that exist: sequence of [id, meta]
 
-cvars == <<l, log, hmap, hroot, hyps, reopened, viol, nst, hmaps, dumps, nacked, lost>>
+cvars == <<l, log, hmap, hroot, hyps, reopened, viol, nst, hmaps, dumps, nacked, lost, blist>>
 
 CView == l
 
 N0 == [up |-> FALSE, len |-> 0, idx |-> 0, pend |-> 0, pidx |-> 0, restored |-> FALSE, restarted |-> FALSE, unknown |-> FALSE,
-       maybe |-> FALSE]   \* maybe: killed between compute and persist - the atomic write either landed or not
+       maybe |-> FALSE, fork |-> FALSE]   \* maybe: killed between compute and persist - the atomic write either landed or not
 
 (* A node killed inside db.Mutate holds either the state before the write or the state after it
    (Cluster.tla: Crash is enabled in pc = "computed"; the write batch is atomic).  The first
@@ -47,7 +48,7 @@ ResolveBad(s, obsIdx, obsLen) ==
   s.maybe /\ ~(obsIdx = s.pidx /\ obsLen = s.len + s.pend) /\ ~(obsIdx = s.idx /\ obsLen = s.len)
 
 CInit == /\ l = 2 /\ log = <<>> /\ hmap = <<>> /\ hroot = D(NB) /\ hyps = <<>> /\ reopened = FALSE /\ viol = {}
-         /\ nst = <<N0, N0, N0>> /\ hmaps = <<>> /\ dumps = <<>> /\ nacked = 0 /\ lost = {}
+         /\ nst = <<N0, N0, N0>> /\ hmaps = <<>> /\ dumps = <<>> /\ nacked = 0 /\ lost = {} /\ blist = <<>>
 
 (* tags: every failure is reported under each property it falsifies *)
 NTags(props, n, what) ==
@@ -77,8 +78,20 @@ MentionFails(props, n, v0, ds) ==
   ELSE {}
 
 (*------------------------------------------------------------ persist ----*)
+(* RaftNode.resetAppliedIndex (fix a4 of finding F11): a node bootstrapped on a store restored from
+   a backup rewrites its fsm state keeping the version and forgetting the applied raft index *)
+IsIndexReset(e) == Len(e.leaves) = 0 /\ e.hasfsm /\ e.idx = 0 /\ ~e.hasmeta
+
+StepIndexReset ==
+  /\ Ev.a = "pbegin" /\ IsIndexReset(Ev)
+  /\ LET n == Ev.n s == nst[n] IN
+     /\ nst' = [nst EXCEPT ![n].pend = 0, ![n].pidx = 0, ![n].idx = 0]
+     /\ viol' = viol \cup (IF ~s.unknown /\ s.len > 0 /\ Ev.bver # s.len - 1
+                            THEN {Tag("C16", "applied-index reset changed the version [node " \o ToString(n) \o "]")} ELSE {})
+  /\ UNCHANGED <<log, hmap, hroot, hyps, hmaps, reopened, dumps, nacked, lost, blist>>
+
 StepPBegin ==
-  /\ Ev.a = "pbegin"
+  /\ Ev.a = "pbegin" /\ ~IsIndexReset(Ev)
   /\ LET n == Ev.n
          s0 == nst[n]
          (* replay after a kill: the entry in flight is re-applied iff its write did not land *)
@@ -86,9 +99,9 @@ StepPBegin ==
               ELSE IF Ev.idx = s0.pidx /\ Ev.first = s0.len THEN NotLanded(s0) ELSE Landed(s0)
          m == Len(Ev.leaves)
          expPrev == IF s.len = 0 THEN 0 ELSE s.len - 1 IN
-     /\ Mention(Ev.first, Ev.leaves)
+     /\ IF s.fork THEN UNCHANGED <<log, hmap, hroot, hyps, hmaps>> ELSE Mention(Ev.first, Ev.leaves)
      /\ nst' = [nst EXCEPT ![n] = [s EXCEPT !.pend = m, !.pidx = Ev.idx]]
-     /\ viol' = viol \cup MentionFails({"C05", "C06"}, n, Ev.first, Ev.leaves)
+     /\ viol' = viol \cup (IF s.fork THEN {} ELSE MentionFails({"C05", "C06"}, n, Ev.first, Ev.leaves))
           \cup (IF ~s.up THEN NTags({"C07"}, n, "a stopped node wrote to its store") ELSE {})
           \cup (IF s.pend # 0 THEN NTags({"C07"}, n, "two applies in flight") ELSE {})
           \cup (IF ~s.unknown /\ Ev.idx <= s.idx THEN NTags({"C07", "C05"}, n, "log entry applied twice (index not beyond the applied one)") ELSE {})
@@ -98,14 +111,14 @@ StepPBegin ==
           \cup (IF Ev.hasfsm /\ m > 0 /\ Ev.bver # Ev.first + m - 1 THEN NTags({"C05", "C07"}, n, "fsm state names another last version") ELSE {})
           \cup (IF Ev.hasmeta /\ ~s.unknown /\ (Ev.prev # expPrev \/ Ev.new # Ev.first + m - 1)
                 THEN NTags({"C09"}, n, "version metadata (previous, new) wrong") ELSE {})
-  /\ UNCHANGED <<reopened, dumps, nacked, lost>>
+  /\ UNCHANGED <<reopened, dumps, nacked, lost, blist>>
 
 StepPEnd ==
   /\ Ev.a = "pend"
   /\ LET n == Ev.n s == nst[n] IN
      /\ nst' = [nst EXCEPT ![n].len = (IF s.unknown THEN s.len ELSE s.len + s.pend), ![n].idx = s.pidx, ![n].pend = 0]
      /\ viol' = viol \cup (IF Ev.err THEN NTags({"C07"}, n, "store write failed") ELSE {})
-  /\ UNCHANGED <<log, hmap, hroot, hyps, hmaps, reopened, dumps, nacked, lost>>
+  /\ UNCHANGED <<log, hmap, hroot, hyps, hmaps, reopened, dumps, nacked, lost, blist>>
 
 (*---------------------------------------------------------------- ack ----*)
 StepAck ==
@@ -136,25 +149,25 @@ StepAck ==
                   : i \in 1..Min(Len(Ev.snaps), m) }
                \cup (IF ~nst[n].unknown /\ nst[n].len < v0 + m
                      THEN NTags({"C07"}, n, "acknowledged before the insertion was persisted") ELSE {})
-  /\ UNCHANGED <<reopened, dumps, nst>>
+  /\ UNCHANGED <<reopened, dumps, nst, blist>>
 
 (*-------------------------------------------------------- lifecycle ------*)
 StepBoot ==
   /\ Ev.a = "boot"
   /\ nst' = [nst EXCEPT ![Ev.n].up = TRUE, ![Ev.n].restarted = (nst[Ev.n].len > 0 \/ nst[Ev.n].idx > 0 \/ nst[Ev.n].maybe)]
-  /\ UNCHANGED <<viol, log, hmap, hroot, hyps, hmaps, reopened, dumps, nacked, lost>>
+  /\ UNCHANGED <<viol, log, hmap, hroot, hyps, hmaps, reopened, dumps, nacked, lost, blist>>
 
 StepKill ==
   /\ Ev.a \in {"kill", "died"}
   /\ nst' = [nst EXCEPT ![Ev.n].up = FALSE, ![Ev.n].maybe = (nst[Ev.n].pend > 0)]
   /\ viol' = viol \cup (IF Ev.a = "died" THEN {Tag("C07", "node process died on its own [node " \o ToString(Ev.n) \o "]"),
                                                Tag("C11", "node process died on its own [node " \o ToString(Ev.n) \o "]")} ELSE {})
-  /\ UNCHANGED <<log, hmap, hroot, hyps, hmaps, reopened, dumps, nacked, lost>>
+  /\ UNCHANGED <<log, hmap, hroot, hyps, hmaps, reopened, dumps, nacked, lost, blist>>
 
 StepExit ==
   /\ Ev.a = "exit"
   /\ viol' = viol \cup (IF Ev.code # 0 THEN {Tag("C08", "process aborted at close [node " \o ToString(Ev.n) \o "]")} ELSE {})
-  /\ UNCHANGED <<nst, log, hmap, hroot, hyps, hmaps, reopened, dumps, nacked, lost>>
+  /\ UNCHANGED <<nst, log, hmap, hroot, hyps, hmaps, reopened, dumps, nacked, lost, blist>>
 
 StepStart ==
   /\ Ev.a = "start"
@@ -171,7 +184,7 @@ StepStart ==
                \cup (IF bad THEN NTags({"C07"}, n, "state after the crash is neither the state before nor after the interrupted write") ELSE {})
                \cup (IF ~s.unknown /\ Ev.idx # s.idx THEN NTags({"C08", "C07"}, n, "applied index after restart differs from the persisted one") ELSE {})
                \cup (IF ~s.unknown /\ Ev.version # s.len THEN NTags({"C08", "C07", "C05"}, n, "version after restart differs from the persisted one") ELSE {})
-  /\ UNCHANGED <<log, hmap, hroot, hyps, hmaps, reopened, dumps, nacked, lost>>
+  /\ UNCHANGED <<log, hmap, hroot, hyps, hmaps, reopened, dumps, nacked, lost, blist>>
 
 StepStop ==
   /\ Ev.a = "stop"
@@ -180,7 +193,7 @@ StepStop ==
      /\ viol' = viol
           \cup (IF Ev.err THEN {Tag("C08", "shutdown failed or panicked [node " \o ToString(n) \o "]")} ELSE {})
           \cup (IF Ev.leak > 0 THEN {Tag("C08", "reader left open at close [node " \o ToString(n) \o "]")} ELSE {})
-  /\ UNCHANGED <<log, hmap, hroot, hyps, hmaps, reopened, dumps, nacked, lost>>
+  /\ UNCHANGED <<log, hmap, hroot, hyps, hmaps, reopened, dumps, nacked, lost, blist>>
 
 (* state transfer: the store changes under the node; its state is re-learnt at the next dump *)
 StepLoad ==
@@ -188,7 +201,7 @@ StepLoad ==
   /\ LET n == Ev.n IN
      /\ nst' = [nst EXCEPT ![n].unknown = (Ev.phase # "begin"), ![n].restored = TRUE]
      /\ viol' = viol
-  /\ UNCHANGED <<log, hmap, hroot, hyps, hmaps, reopened, dumps, nacked, lost>>
+  /\ UNCHANGED <<log, hmap, hroot, hyps, hmaps, reopened, dumps, nacked, lost, blist>>
 
 StepDump ==
   /\ Ev.a = "dump"
@@ -202,19 +215,23 @@ StepDump ==
                 THEN NTags({"C05", "C07"}, n, "node state (version, applied index) differs from what it persisted") ELSE {})
           \cup (IF Ev.version > 0 /\ Ev.bver # Ev.version - 1 THEN NTags({"C05"}, n, "fsm last version is not version counter - 1") ELSE {})
           \cup (IF Ev.version > Len(log) THEN NTags({"C05", "C06"}, n, "node holds versions that were never committed") ELSE {})
-  /\ UNCHANGED <<log, hmap, hroot, hyps, hmaps, reopened, nacked, lost>>
+  /\ UNCHANGED <<log, hmap, hroot, hyps, hmaps, reopened, nacked, lost, blist>>
 
 (*------------------------------------------------------------ queries ----*)
 (* a reply must be computed from ONE prefix of the committed log that the node could hold *)
-ViewOK(n, c1) == LET s == nst[n] IN
-  s.unknown \/ c1 = s.len \/ (s.pend > 0 /\ c1 = s.len + s.pend)
+(* inw > 0: the query ran while an insertion of inw events was between compute and persist and
+   is recorded after that insertion completed (so that it can be verified against the then
+   acknowledged snapshots): it may have been served from the state before or after it *)
+ViewOKW(n, c1, inw) == LET s == nst[n] IN
+  s.unknown \/ c1 = s.len \/ (s.pend > 0 /\ c1 = s.len + s.pend) \/ (inw > 0 /\ c1 = s.len - inw)
+InW(e) == IF "inwindow" \in DOMAIN e THEN e.inwindow ELSE 0
 
 Retag(tags, n) ==
   UNION { LET t == tags IN {} : x \in {} } \cup tags
   \cup (IF nst[n].restored THEN { "C09|" \o t : t \in tags } ELSE {})
   \cup (IF nst[n].restarted THEN { "C08|" \o t : t \in tags } ELSE {})
-  \cup { "C06|" \o t : t \in tags }
-  \cup (IF nst[n].pend > 0 THEN { "C10|" \o t : t \in tags } ELSE {})
+  \cup (IF nst[n].fork THEN { "C16|" \o t : t \in tags } ELSE { "C06|" \o t : t \in tags })
+  \cup (IF nst[n].pend > 0 \/ InW(Ev) > 0 THEN { "C10|" \o t : t \in tags } ELSE {})
 
 StepNMember ==
   /\ Ev.a = "nmember"
@@ -222,42 +239,120 @@ StepNMember ==
          c1 == IF Ev.err THEN nst[n].len ELSE Ev.current + 1 IN
      viol' = viol \cup
        (IF Ev.err
-        THEN (IF "panic" \in DOMAIN Ev THEN NTags({"C10"}, n, "query panicked") ELSE
-              IF nst[n].pend = 0 /\ ~nst[n].unknown /\ Ev.d \in DOMAIN (IF c1 > 0 THEN hmaps[c1] ELSE <<>>) /\ (Ev.latest \/ hmaps[c1][Ev.d] <= Ev.q)
+        THEN (IF "panic" \in DOMAIN Ev THEN NTags({"C10"}, n, "membership query failed internally (panic)") ELSE
+              IF nst[n].pend = 0 /\ InW(Ev) = 0 /\ ~nst[n].unknown /\ Ev.d \in DOMAIN (IF c1 > 0 THEN hmaps[c1] ELSE <<>>) /\ (Ev.latest \/ hmaps[c1][Ev.d] <= Ev.q)
               THEN NTags({"C01", "C06"}, n, "query for an inserted event failed") ELSE {})
-        ELSE IF c1 < 1 \/ c1 > Len(log) \/ ~ViewOK(n, c1)
+        ELSE IF c1 < 1 \/ c1 > Len(log) \/ ~ViewOKW(n, c1, InW(Ev))
              THEN NTags({"C05", "C10"}, n, "current version of the reply is not a state of this node")
              ELSE Retag(MemberChecksOn(Ev, SubSeq(log, 1, c1), hmaps[c1], hyps[c1]), n))
-  /\ UNCHANGED <<log, hmap, hroot, hyps, hmaps, reopened, dumps, nacked, lost, nst>>
+  /\ UNCHANGED <<log, hmap, hroot, hyps, hmaps, reopened, dumps, nacked, lost, nst, blist>>
 
 StepNIncr ==
   /\ Ev.a = "nincr"
   /\ LET n == Ev.n
          c1 == nst[n].len + (IF "panic" \in DOMAIN Ev THEN 0 ELSE 0) IN
      viol' = viol \cup
-       (IF "panic" \in DOMAIN Ev THEN NTags({"C10"}, n, "query panicked")
+       (IF "panic" \in DOMAIN Ev THEN NTags({"C10"}, n, "consistency query failed internally (panic)")
         ELSE IF nst[n].unknown \/ nst[n].pend > 0 THEN {}
+        ELSE IF InW(Ev) > 0
+        THEN (* served inside the window: a clean error, or a proof that verifies against the issued snapshots *)
+             (IF ~Ev.err /\ "v_wire" \in DOMAIN Ev /\ ~Ev.v_wire
+              THEN NTags({"C10"}, n, "consistency proof served during an insertion does not verify") ELSE {})
         ELSE Retag(IncrChecksOn([Ev EXCEPT !.a = "nincr"] @@ [alts |-> <<>>, v_local |-> (IF "v_wire" \in DOMAIN Ev THEN Ev.v_wire ELSE FALSE),
                                  wire_fields |-> TRUE, v_wire |-> FALSE], SubSeq(log, 1, Min(c1, Len(log)))), n))
+  /\ UNCHANGED <<log, hmap, hroot, hyps, hmaps, reopened, dumps, nacked, lost, nst, blist>>
+
+(* C16: a backup records, as its metadata, the last version of the state it captures; listing
+   shows every existing backup; deleting removes only the one named *)
+ListOf(e) == [i \in 1..Len(e.list) |-> [id |-> e.list[i].id, meta |-> e.list[i].meta]]
+SeqMinus(sq, id) == SelectSeq(sq, LAMBDA b : b.id # id)
+
+StepBackup ==
+  /\ Ev.a = "backup"
+  /\ LET n == Ev.n s == nst[n]
+         got == ListOf(Ev)
+         newest == IF Len(got) = 0 THEN [id |-> 0, meta |-> "?"] ELSE got[Len(got)]
+         captured == s.len IN
+     /\ blist' = IF Ev.err THEN blist ELSE got
+     /\ viol' = viol
+       \cup (IF Ev.err THEN {Tag("C16", "backup failed or panicked")} ELSE {})
+       \cup (IF ~Ev.err /\ (Len(got) # Len(blist) + 1 \/ SubSeq(got, 1, Len(blist)) # blist)
+             THEN {Tag("C16", "listing does not show exactly the existing backups plus the new one")} ELSE {})
+       \cup (IF ~Ev.err /\ Len(got) > 0 /\ \E i \in 1..Len(blist) : blist[i].id = newest.id
+             THEN {Tag("C16", "backup id reused")} ELSE {})
+       \cup (IF ~Ev.err /\ Len(got) > 0 /\ ~s.unknown /\ captured > 0 /\ newest.meta # ToString(captured - 1)
+             THEN {Tag("C16", "backup records a version that is not the version of the captured store" \o
+                              (IF s.pend > 0 THEN " (taken while an insertion was in flight)" ELSE ""))} ELSE {})
   /\ UNCHANGED <<log, hmap, hroot, hyps, hmaps, reopened, dumps, nacked, lost, nst>>
+
+StepDelBackup ==
+  /\ Ev.a = "delbackup"
+  /\ blist' = SeqMinus(blist, Ev.id)
+  /\ viol' = viol
+       \cup (IF Ev.err THEN {Tag("C16", "deleting an existing backup failed")} ELSE {})
+       \cup (IF ~Ev.err /\ ListOf(Ev) # SeqMinus(blist, Ev.id) THEN {Tag("C16", "delete removed something else than the named backup")} ELSE {})
+  /\ UNCHANGED <<log, hmap, hroot, hyps, hmaps, reopened, dumps, nacked, lost, nst>>
+
+(* a backup restored into a fresh node (node 2, a fork of the log at the backup's version) *)
+MetaLen(meta) == CHOOSE k \in 0..Len(log) : (k > 0 /\ meta = ToString(k - 1)) \/ (k = 0 /\ \A j \in 1..Len(log) : meta # ToString(j - 1))
+
+StepRestoreBackup ==
+  /\ Ev.a = "restorebackup"
+  /\ viol' = viol \cup (IF Ev.err THEN {Tag("C16", "restoring an existing backup failed")} ELSE {})
+  /\ UNCHANGED <<log, hmap, hroot, hyps, hmaps, reopened, dumps, nacked, lost, nst, blist>>
+
+StepBStart ==
+  /\ Ev.a = "bstart"
+  /\ LET want == MetaLen(Ev.meta) IN
+     IF Ev.err
+     THEN /\ nst' = nst
+          /\ viol' = viol \cup {Tag("C16", "a node cannot be opened on the restored backup")}
+     ELSE /\ nst' = [nst EXCEPT ![Ev.n] = [N0 EXCEPT !.up = TRUE, !.len = Ev.version, !.idx = Ev.idx, !.fork = TRUE]]
+          /\ viol' = viol
+               \cup (IF Ev.version # want THEN {Tag("C16", "restored node does not report the backup's version")} ELSE {})
+               \cup (IF Ev.version > 0 /\ Ev.bver # Ev.version - 1 THEN {Tag("C16", "restored fsm state names another version")} ELSE {})
+  /\ UNCHANGED <<log, hmap, hroot, hyps, hmaps, reopened, dumps, nacked, lost, blist>>
+
+StepBAdd ==
+  /\ Ev.a = "badd"
+  /\ LET c1 == Ev.was
+         ok == ~Ev.err /\ "v" \in DOMAIN Ev IN
+     viol' = viol \cup
+       (IF ~ok THEN {Tag("C16", "the restored node cannot accept the next event" \o (IF "panic" \in DOMAIN Ev THEN " (insertion panics)" ELSE ""))}
+        ELSE (IF Ev.v # c1 THEN {Tag("C16", "next event after restore does not get version v+1")} ELSE {})
+             \cup (IF c1 <= Len(log) /\ Term(Ev.hist) # Root(Append(SubSeq(log, 1, c1), Ev.d), c1)
+                   THEN {Tag("C16", "history digest after restore is not the canonical root")} ELSE {})
+             \cup (IF c1 >= 1 /\ c1 <= Len(log) /\ Term(Ev.hyper) # HRoot(ApplyBulkMap(hmaps[c1], <<Ev.d>>, c1))
+                   THEN {Tag("C16", "hyper digest after restore is not the canonical root")} ELSE {}))
+  /\ UNCHANGED <<log, hmap, hroot, hyps, hmaps, reopened, dumps, nacked, lost, nst, blist>>
+
+StepBStop ==
+  /\ Ev.a = "bstop"
+  /\ nst' = [nst EXCEPT ![Ev.n] = N0]
+  /\ UNCHANGED <<viol, log, hmap, hroot, hyps, hmaps, reopened, dumps, nacked, lost, blist>>
+
+StepHang ==
+  /\ Ev.a = "hang"
+  /\ viol' = viol \cup {Tag("C10", "queries issued during an insertion never returned")}
+  /\ UNCHANGED <<log, hmap, hroot, hyps, hmaps, reopened, dumps, nacked, lost, nst, blist>>
 
 StepCReset ==
   /\ Ev.a = "reset"
   /\ log' = <<>> /\ hmap' = <<>> /\ hroot' = D(NB) /\ hyps' = <<>> /\ reopened' = FALSE
-  /\ nst' = <<N0, N0, N0>> /\ hmaps' = <<>> /\ dumps' = <<>> /\ nacked' = 0 /\ lost' = {}
+  /\ nst' = <<N0, N0, N0>> /\ hmaps' = <<>> /\ dumps' = <<>> /\ nacked' = 0 /\ lost' = {} /\ blist' = <<>>
   /\ UNCHANGED viol
 
 StepCInfo ==
   /\ Ev.a \in {"universe", "quiesce", "transfer", "snapshot", "noleader", "scenario_error", "info"}
   /\ viol' = viol \cup (IF Ev.a = "quiesce" /\ ~Ev.ok THEN {Tag("D06", "replicas did not reach the same applied index within the deadline")} ELSE {})
                   \cup (IF Ev.a = "scenario_error" THEN {Tag("D07", "scenario aborted: " \o Ev.msg)} ELSE {})
-  /\ UNCHANGED <<log, hmap, hroot, hyps, hmaps, reopened, dumps, nacked, lost, nst>>
+  /\ UNCHANGED <<log, hmap, hroot, hyps, hmaps, reopened, dumps, nacked, lost, nst, blist>>
 
 CNext ==
   /\ l <= Len(Trace)
   /\ l' = l + 1
-  /\ (StepPBegin \/ StepPEnd \/ StepAck \/ StepBoot \/ StepKill \/ StepExit \/ StepStart \/ StepStop \/ StepLoad \/ StepDump
-      \/ StepNMember \/ StepNIncr \/ StepCReset \/ StepCInfo)
+  /\ (StepPBegin \/ StepIndexReset \/ StepPEnd \/ StepAck \/ StepBoot \/ StepKill \/ StepExit \/ StepStart \/ StepStop \/ StepLoad \/ StepDump
+      \/ StepNMember \/ StepNIncr \/ StepBackup \/ StepDelBackup \/ StepRestoreBackup \/ StepBStart \/ StepBAdd \/ StepBStop \/ StepHang \/ StepCReset \/ StepCInfo)
 
 CSpec == CInit /\ [][CNext]_cvars
 =============================================================================
